@@ -65,3 +65,15 @@ func OnceExit(key any) {
 		h(key, false)
 	}
 }
+
+// HashKeys returns the keys of m, sorted when Deterministic is set. Loops
+// over hash-keyed maps whose iteration order leaks into the order of I/O go
+// through it.
+func HashKeys[V any](m map[plumbing.Hash]V) []plumbing.Hash {
+	keys := make([]plumbing.Hash, 0, len(m))
+	for k := range m {
+		keys = append(keys, k)
+	}
+	SortHashes(keys)
+	return keys
+}
